@@ -240,16 +240,43 @@ func (c *Check) residualFlag() {
 // legendTotals (R3)
 func (c *Check) legendTotals() {
 	p := c.P
-	gt := c.anchorFn("C05-R3", "internal/report", "graphTotal")
 	rl := c.anchorFn("C05-R3", "internal/report", "reportLabels")
 	ntg := c.anchorFn("C05-R3", "internal/report", "(*Report).newTrimmedGraph")
-	if gt == nil || rl == nil || ntg == nil {
+	if rl == nil || ntg == nil {
 		return
 	}
-	sp := p.SSAPkg("internal/report")
-	for _, mem := range sp.Members {
-		_ = mem
+	// fromTrimmed: g is the graph newTrimmedGraph returned, in this function or (when g is a
+	// parameter) at every call of it
+	var fromTrimmed func(g ssa.Value, depth int) bool
+	fromTrimmed = func(g ssa.Value, depth int) bool {
+		if ex, ok := g.(*ssa.Extract); ok {
+			if tc, ok := ex.Tuple.(*ssa.Call); ok && tc.Call.StaticCallee() == ntg && ex.Index == 0 {
+				return true
+			}
+		}
+		par, ok := g.(*ssa.Parameter)
+		if !ok || depth > 2 {
+			return false
+		}
+		fn := par.Parent()
+		calls, asValue := directCallSites(p, fn)
+		if asValue || len(calls) == 0 {
+			return false
+		}
+		for i, q := range fn.Params {
+			if q != par {
+				continue
+			}
+			for _, call := range calls {
+				if i >= len(call.Common().Args) || !fromTrimmed(call.Common().Args[i], depth+1) {
+					return false
+				}
+			}
+			return true
+		}
+		return false
 	}
+	nSum := 0
 	forAllPkgFuncs(p, "internal/report", func(f *ssa.Function) {
 		for _, b := range f.Blocks {
 			for _, ins := range b.Instrs {
@@ -259,17 +286,19 @@ func (c *Check) legendTotals() {
 				}
 				key := "legend:" + fnName(f)
 				args := call.Call.Args
-				tot, ok := args[1].(*ssa.Call)
-				if !ok || tot.Call.StaticCallee() != gt {
-					// the flame-graph legend shows every stack: total is the report total
-					if isFieldLoad(args[1], "report.Report", "total") {
-						c.ok("C05-R3", key, p.relFile(call.Pos()), "legend of the untrimmed stack view in "+fnName(f), "shown total is the report total and node counts are equal (nothing trimmed)")
-						continue
-					}
-					c.bad("C05-R3", key, p.relFile(call.Pos()), "'accounting for' argument of reportLabels in "+fnName(f)+" is not graphTotal(g)")
+				// the flame-graph legend shows every stack: total is the report total
+				if isFieldLoad(args[1], "report.Report", "total") {
+					c.ok("C05-R3", key, p.relFile(call.Pos()), "legend of the untrimmed stack view in "+fnName(f), "shown total is the report total and node counts are equal (nothing trimmed)")
 					continue
 				}
-				g := tot.Call.Args[0]
+				// the 'accounting for' figure: Σ FlatValue over the nodes of a graph g, computed in
+				// place or by a helper
+				g, how := flatSumGraph(args[1], 0)
+				if g == nil {
+					c.bad("C05-R3", key, p.relFile(call.Pos()), "'accounting for' argument of reportLabels in "+fnName(f)+" is not the sum of FlatValue over the nodes of the graph that is shown ("+how+")")
+					continue
+				}
+				nSum++
 				// len(g.Nodes) of the same g
 				okLen := false
 				if lc, ok := args[2].(*ssa.Call); ok {
@@ -281,44 +310,132 @@ func (c *Check) legendTotals() {
 						}
 					}
 				}
-				fromTrim := false
-				if ex, ok := g.(*ssa.Extract); ok {
-					if tc, ok := ex.Tuple.(*ssa.Call); ok && tc.Call.StaticCallee() == ntg && ex.Index == 0 {
-						fromTrim = true
-					}
-				}
-				// the printer iterates the same g.Nodes
+				fromTrim := fromTrimmed(g, 0)
 				if okLen && fromTrim {
-					c.ok("C05-R3", key, p.relFile(call.Pos()), "legend figures in "+fnName(f), "shown total = graphTotal(g), node count = len(g.Nodes), g = result of newTrimmedGraph in the same function")
+					c.ok("C05-R3", key, p.relFile(call.Pos()), "legend figures in "+fnName(f), "shown total = Σ FlatValue over g.Nodes ("+how+"), node count = len(g.Nodes), g = result of newTrimmedGraph")
 				} else {
 					c.bad("C05-R3", key, p.relFile(call.Pos()), fmt.Sprintf("legend figures in %s are not computed from the trimmed graph that is printed (len of same g: %v, g from newTrimmedGraph: %v)", fnName(f), okLen, fromTrim))
 				}
 			}
 		}
 	})
-	// graphTotal is the plain sum of FlatValue over g.Nodes
-	leaves := map[string]bool{}
-	var ret *ssa.Return
-	for _, b := range gt.Blocks {
-		for _, ins := range b.Instrs {
-			if r, ok := ins.(*ssa.Return); ok {
-				ret = r
-			}
-		}
-	}
-	if ret == nil || len(ret.Results) != 1 {
-		c.undecided("C05-R3", "graphTotal", "", "graphTotal has no single result")
+	if nSum > 0 {
+		c.ok("C05-R3", "graphTotal", p.relFile(rl.Pos()), "the shown total is the sum of FlatValue over the graph's nodes", fmt.Sprintf("result = 0 + Σ n.FlatValue() for n in range g.Nodes at %d legend sites", nSum))
 	} else {
-		sumLeaves(ret.Results[0], leaves, map[ssa.Value]bool{})
-		want := "(*graph.Node).FlatValue(range g.Nodes)"
-		okSum := len(leaves) == 2 && leaves["0"] && leaves[want]
-		if okSum {
-			c.ok("C05-R3", "graphTotal", p.relFile(gt.Pos()), "graphTotal is the sum of FlatValue over the graph's nodes", "result = 0 + Σ n.FlatValue() for n in range g.Nodes")
-		} else {
-			c.bad("C05-R3", "graphTotal", p.relFile(gt.Pos()), "graphTotal is not the plain sum of FlatValue over g.Nodes: "+keys(leaves))
-		}
+		c.bad("C05-R3", "graphTotal", p.relFile(rl.Pos()), "no legend is given the plain sum of FlatValue over the printed graph's nodes")
 	}
 	c.Floor("C05-R3", 4)
+}
+
+// flatSumGraph: v is 0 + Σ n.FlatValue() for n in a forward loop over g.Nodes (computed in
+// place, or returned by a module helper that is given g); returns g.
+func flatSumGraph(v ssa.Value, depth int) (ssa.Value, string) {
+	if depth > 2 {
+		return nil, "too deep"
+	}
+	if call, ok := v.(*ssa.Call); ok {
+		h := call.Call.StaticCallee()
+		if h != nil && fnInModule(h) && len(h.Blocks) > 0 && h.Signature.Results().Len() == 1 && h.Name() != "FlatValue" {
+			var g ssa.Value
+			for _, b := range h.Blocks {
+				ret, ok := b.Instrs[len(b.Instrs)-1].(*ssa.Return)
+				if !ok {
+					continue
+				}
+				hg, how := flatSumGraph(ret.Results[0], depth+1)
+				par, isPar := hg.(*ssa.Parameter)
+				if !isPar {
+					return nil, "helper " + h.Name() + ": " + how
+				}
+				for i, q := range h.Params {
+					if q == par && i < len(call.Call.Args) {
+						if g != nil && g != call.Call.Args[i] {
+							return nil, "helper sums different graphs"
+						}
+						g = call.Call.Args[i]
+					}
+				}
+			}
+			if g != nil {
+				return g, "computed by " + h.Name()
+			}
+			return nil, "helper " + h.Name() + " does not sum its graph parameter"
+		}
+	}
+	var g ssa.Value
+	bad := ""
+	seen := map[ssa.Value]bool{}
+	nCalls := 0
+	var walk func(x ssa.Value)
+	walk = func(x ssa.Value) {
+		if seen[x] || bad != "" {
+			return
+		}
+		seen[x] = true
+		switch y := x.(type) {
+		case *ssa.Phi:
+			for _, e := range y.Edges {
+				walk(e)
+			}
+		case *ssa.BinOp:
+			if y.Op != token.ADD {
+				bad = "operator " + y.Op.String()
+				return
+			}
+			walk(y.X)
+			walk(y.Y)
+		case *ssa.Const:
+			if k, ok := constInt(y); !ok || k != 0 {
+				bad = "constant " + y.String()
+			}
+		case *ssa.Call:
+			sc := y.Call.StaticCallee()
+			if sc == nil || sc.Name() != "FlatValue" || len(y.Call.Args) != 1 {
+				bad = "a term that is not n.FlatValue()"
+				return
+			}
+			ld, ok := y.Call.Args[0].(*ssa.UnOp)
+			if !ok {
+				bad = "FlatValue of something that is not a node of the list"
+				return
+			}
+			ia, ok := ld.X.(*ssa.IndexAddr)
+			if !ok || !isForwardIndex(ia.Index) {
+				bad = "FlatValue of a node that is not the element of a forward loop"
+				return
+			}
+			ld2, ok := ia.X.(*ssa.UnOp)
+			if !ok {
+				bad = "the node list is not g.Nodes"
+				return
+			}
+			fa, ok := ld2.X.(*ssa.FieldAddr)
+			if !ok {
+				bad = "the node list is not g.Nodes"
+				return
+			}
+			if T, F := fieldOf(fa.X.Type(), fa.Field); T != "graph.Graph" || F != "Nodes" {
+				bad = "the node list is not g.Nodes"
+				return
+			}
+			if g != nil && g != fa.X {
+				bad = "nodes of different graphs"
+				return
+			}
+			g = fa.X
+			nCalls++
+		default:
+			bad = "a term " + describeValue(x)
+		}
+	}
+	walk(v)
+	if bad != "" || g == nil || nCalls == 0 {
+		if bad == "" {
+			bad = "no FlatValue term"
+		}
+		return nil, bad
+	}
+	return g, "summed in place"
 }
 
 func sumLeaves(v ssa.Value, leaves map[string]bool, seen map[ssa.Value]bool) {
